@@ -73,6 +73,7 @@ REQUIRED = dict(
               M_K_GRID, M_K_NAME, M_H_ONCE, M_H_PATH, M_H_VAL, M_H_INTERP, M_HK_INTERP, M_CIA_FIRST],
     classes=['xsec:pickle', 'xsec:hdf5', 'xsec:exotransmit', 'unit:Pa', 'unit:bar', 'unit:mbar', 'unit:Ba',
              'unit:cds-only', 'cia:pickle', 'cia:hitran', 'hitran:per-temperature-ranges', 'hitran:negative-floored',
+             'hitran:ranges-share-a-wavenumber',
              'ktab:pickle', 'ktab:hdf5', 'name:isotopologue', 'name:suffix', 'query:node', 'query:interior',
              'query:outside', 'query:wngrid', 'interp:linear', 'interp:exp', 'hist:xsec', 'hist:cia', 'hist:ktab',
              'op:clear_cache', 'op:set_interpolation', 'op:set_memory_mode', 'op:set_path', 'hist:repeat>=3',
@@ -534,6 +535,14 @@ def cia_compare(ctx, monitor, exp, t, got, want, cmax, native, **w):
     if not native:
         mask = np.full(len(got), bool(mask.any()))
     got, want, cmax = np.asarray(got, dtype=float), np.asarray(want, dtype=float), np.asarray(cmax, dtype=float)
+    if native and exp.get('shared_wavenumber') and got.shape == want.shape == exp['wn'].shape:
+        # two ranges share a wavenumber: both records are in the table; which of the two comes first is not stated
+        # (it follows the block order of the file), so the records of a shared wavenumber are compared as a set
+        got, want = got.copy(), want.copy()
+        wn = exp['wn']
+        for v in np.unique(wn[np.r_[False, wn[1:] == wn[:-1]]]):
+            idx = np.where(wn == v)[0]
+            got[idx], want[idx] = np.sort(got[idx]), np.sort(want[idx])
     if got.shape != want.shape:
         ctx.feature(hitran_ramp_region=False)
         return ctx.close(monitor, got, want, RTOL, **w)
@@ -581,6 +590,20 @@ def wl_cia(ctx, rng):
             qs.append(('interior', float(T[j]) + float(rng.uniform(0.05, 0.9)) * min(1.0, 0.5 * float(T[j + 1] - T[j]))))
         qs += [('outside', float(T[0] * rng.uniform(0.2, 0.95))), ('outside', float(T[-1] * rng.uniform(1.05, 3.0)))]
         offgrid = np.sort(rng.uniform(wn[0] * 0.8, wn[-1] * 1.2, int(rng.integers(2, 12))))
+        if exp.get('shared_wavenumber'):
+            ctx.observe('hitran:ranges-share-a-wavenumber')
+            # interpolating next to a doubled wavenumber depends on which of its two records comes first: not stated
+            dup = np.unique(wn[np.r_[False, wn[1:] == wn[:-1]]])
+            u = np.unique(wn)
+            keep = np.ones(len(offgrid), dtype=bool)
+            for v in dup:
+                k = int(np.searchsorted(u, v))
+                a = u[k - 1] if k > 0 else -np.inf
+                b = u[k + 1] if k + 1 < len(u) else np.inf
+                keep &= ~((offgrid > a) & (offgrid < b))
+            offgrid = offgrid[keep]
+            if len(offgrid) < 2:
+                offgrid = np.array([wn[0] * 0.7, wn[0] * 0.75])
         results = {}
         for fmt, d in (('pickle', ddb), ('hitran', dh)):
             world.reset_caches()
